@@ -1,2 +1,27 @@
 """Sidecar contracts; importing this package registers all of them."""
 from . import basic_block, scfg_queries, scfg_edit, namegen, bytecode, transforms, hierarchy  # noqa
+
+# ---- which property's check re-discharges which function (a property's proved part rests on these contracts)
+from pyvc.contract import REGISTRY as _R
+
+
+def _tag(prop, *suffixes):
+    for q, c in _R.items():
+        if any(q.endswith(s) for s in suffixes) and prop not in c.properties and not c.trusted:
+            c.properties.append(prop)
+
+
+_EDIT = (':SCFG.insert_block', ':SCFG.insert_SyntheticExit', ':SCFG.insert_SyntheticTail', ':SCFG.insert_SyntheticReturn', ':SCFG.insert_SyntheticFill',
+         ':SCFG.insert_block_and_control_blocks', ':SCFG.join_returns', ':SCFG.join_tails_and_exits', ':SyntheticBranch.replace_jump_targets',
+         ':SCFG._sync_exiting', ':SCFG.add_block', ':SCFG.remove_blocks', ':BasicBlock.jump_targets', ':BasicBlock.replace_jump_targets',
+         ':BasicBlock.replace_backedges', ':BasicBlock.declare_backedge')
+_QUERY = (':SCFG.find_head', ':SCFG.find_exiting_and_exits', ':SCFG.find_headers_and_entries', ':SCFG.is_reachable_dfs', ':SCFG.exclude_blocks',
+          ':_doms', ':_post_doms', ':_find_dominators_internal', ':find_branch_regions', ':find_head_blocks', ':find_tail_blocks')
+_tag('C01', *_EDIT)                     # per-arc preservation: the re-routing clauses of the primitives
+_tag('C02', *(_EDIT + _QUERY))          # every no-raise obligation on the restructuring path
+_tag('C03', *_QUERY)
+_tag('C04', *_EDIT)
+_tag('C05', *_EDIT)
+_tag('C06', ':SyntheticBranch.replace_jump_targets', ':SCFG.insert_block_and_control_blocks', ':SCFG._sync_exiting', ':SCFG.insert_block')
+_tag('C12', *(_QUERY + (':SCFG.join_returns', ':SCFG.join_tails_and_exits')))   # proved with arbitrary set iteration order
+_tag('C16', ':SCFG.find_head', ':SCFG.is_reachable_dfs')
